@@ -50,6 +50,11 @@ func allSpecs(thorough bool, seed uint64) []spec {
 	for _, v := range allVariants() {
 		for _, cl := range []bool{true, false} {
 			for _, k := range points(v, thorough) {
+				if v.Name == "12-sdual" && (cl || k == pointEst) {
+					// this variant exists for the server's version-selection path (first ClientHello onwards);
+					// its client and its established state are those of 12-cert
+					continue
+				}
 				for _, f := range familiesFor(v, thorough) {
 					out = append(out, spec{v: v, victimIsClient: cl, k: k, fam: f, thorough: thorough, seed: seed})
 				}
